@@ -19,9 +19,11 @@ WORK = os.path.join(VERIF, ".work")
 SIM = os.path.join(VERIF, "sim")
 # runs against a scratch copy (VERIF_REPO, sensitivity work only) must not
 # overwrite the evidence / replays of the real tree
-_ALT = os.path.abspath(os.environ.get("VERIF_REPO", "/repo")) != "/repo"
-EVID = os.path.join(WORK, "alt", "evidence") if _ALT else os.path.join(VERIF, "evidence")
-REPLAYS = os.path.join(WORK, "alt", "replays") if _ALT else os.path.join(VERIF, "replays")
+_ALT_PATH = os.path.abspath(os.environ.get("VERIF_REPO", "/repo"))
+_ALT = _ALT_PATH != "/repo"
+_ALT_DIR = os.path.join(WORK, "alt", "alt_" + hashlib.sha1(_ALT_PATH.encode()).hexdigest()[:10])
+EVID = os.path.join(_ALT_DIR, "evidence") if _ALT else os.path.join(VERIF, "evidence")
+REPLAYS = os.path.join(_ALT_DIR, "replays") if _ALT else os.path.join(VERIF, "replays")
 DEFAULT_SEED = 20261004
 NCPU = int(os.environ.get("VERIF_JOBS", "16"))
 
@@ -164,8 +166,19 @@ def pmap(fn, items, workers=None):
         return list(ex.map(fn, items))
 
 
+def run_dir():
+    """Per-process scratch root (removed at exit): two checks running at the same time,
+    e.g. against different scratch trees, must never share or wipe each other's files."""
+    d = os.path.join(WORK, "run", "p%d" % os.getpid())
+    if not os.path.isdir(d):
+        os.makedirs(d, exist_ok=True)
+        import atexit
+        atexit.register(lambda: shutil.rmtree(d, ignore_errors=True))
+    return d
+
+
 def scratch(name):
-    d = os.path.join(WORK, "run", name)
+    d = os.path.join(run_dir(), name)
     shutil.rmtree(d, ignore_errors=True)
     os.makedirs(d, exist_ok=True)
     return d
